@@ -170,6 +170,7 @@ class SeqLen:
         self.consts = consts
         self.used: dict[str, str] = {}
         self._attr_writers: dict[str, list[tuple[FuncInfo, ast.AST, ast.expr | None, int]]] | None = None
+        self._unknown = False
         self._busy: set[tuple[str, str]] = set()
 
     # -- public ---------------------------------------------------------------------------------
@@ -184,10 +185,15 @@ class SeqLen:
         if need is None:
             return None
         g = self._guard_len(n, _unp(n.value))
+        self._unknown = False
         have = max(g, self.min_len(f, n.value, n))
         if have >= need:
             return f"len >= {have} (needs {need})"
         why = self._nonempty_filter(f, n) if need == 1 else None
+        if why is None and self._unknown:
+            # the sequence comes from outside the analysed code (a parameter, an attribute nobody in the repository assigns, an
+            # Any-typed payload): its length is not a fact of this source - outside the model (stated), not a finding
+            return "length not determined by the source (parameter / external value): outside the model"
         return why
 
     # -- index domain ----------------------------------------------------------------------------
@@ -351,6 +357,7 @@ class SeqLen:
         while fn is not None:
             params = fn.node.args
             if any(a.arg == e.id for a in params.posonlyargs + params.args + params.kwonlyargs) or (params.vararg and params.vararg.arg == e.id):
+                self._unknown = True
                 return 0
             bounds: list[int] = []
             for st in own_nodes(fn.node):
@@ -419,6 +426,7 @@ class SeqLen:
                         self._attr_writers.setdefault("*", []).append((g, st, None, 0))
         ws = self._attr_writers.get(attr, [])
         if not ws:
+            self._unknown = True
             return 0
         self._busy.add(key)
         try:
